@@ -91,13 +91,20 @@ class C12(Property):
                   "timer once; a stopped wheel is inert. The model is tied to core/collection/timingwheel.go by differential "
                   "execution of generated histories through the public API, and through its clients collection.Cache (with and "
                   "without WithLimit) and the cache cleaner, whose wheel traffic is recorded by a relay and judged both at the "
-                  "wheel level and at the client level (one timer per stored entry, none for deleted/evicted keys).")
+                  "wheel level and at the client level (one timer per stored entry, none for deleted/evicted keys). The values "
+                  "delivered by the ticker are proved irrelevant (tick_stamp_irrelevant) and chosen adversarially by every case "
+                  "(zero time, equal, backwards, jumps of 2..1000 intervals, wall-clock only); core/timex/ticker.go is modelled as a "
+                  "channel machine (every accepted tick received exactly once, in order) and compared operation by operation; the "
+                  "constants of the clients' wheels and the cleaner's retry schedule are read off the running code on every run "
+                  "(GenProofs.v).")
     level_note = ("Trusted: Coq kernel + vm_compute; hand-written models; correspondence only on generated histories; callbacks "
                   "attributed to an operation after goroutine quiescence (stack inspection); the relay in front of a client's "
                   "wheel is an added overlay file that depends on the names of TimingWheel's channels; MoveTimer/SetTimer with "
                   "0 < delay < interval are compared with the model but are outside the property's quantifier.")
     rule = ("wheel: size 1..12, 1..5 keys, 10..90 calls (tick/set/move/remove/drain/stop, nil keys, delays <= 0, panicking "
-            "callbacks), delays around 1, n-1, n, n+1, 2n, random<=4n intervals, rendezvous or timex.FakeTicker; "
+            "callbacks), delays around 1, n-1, n, n+1, 2n, random<=4n intervals, ticker rendezvous / buffered / timex.FakeTicker / "
+            "gated real timex.NewTicker, tick stamps per case policy (now, zero, equal, backwards, jumps, wall-only, absolute, exact, mixed); "
+            "ticker: 4..30 operations Tick/receive/Stop/Done/Wait on one FakeTicker, one real ticker; "
             "cache: limit 0..4, 6 keys, 10..70 operations (Set/SetWithExpire/Get/Del/Take/tick, Del-then-Set, expire-then-Set, "
             "evict-then-Set patterns), final Drain; cleaner: AddCleanTask with 0..5 failures over up to 3970 ticks; "
             "non-trivial = (wheel) a Move of a pending key after the wheel wrapped and a callback, (cache) a callback and a "
@@ -107,7 +114,11 @@ class C12(Property):
         "quiescence detection via runtime.Stack decides which operation a callback belongs to",
         "harness/overlay/collection/zz_verif_c12.go (added, not replacing): relay goroutine in front of a client's wheel; "
         "the client's wheel is rebuilt with NewTimingWheelWithTicker from the parameters and callback the client chose",
-        "Go runtime (channels, goroutines), SafeMap and container/list are not modelled",
+        "Go runtime (channels, goroutines), SafeMap and container/list are not modelled (the channel semantics the FakeTicker "
+        "relies on are modelled in Ticker.v and compared with the implementation by the `ticker` kind)",
+        "a history the implementation does not complete (a call that does not return, callbacks that never come to rest) is "
+        "decided by watchdogs (3 s with the run loop parked inside a handler, 20 s / 30 s otherwise) and confirmed by a re-run alone",
+        "harness/cmd/c12consts reads the clients' wheel parameters through the relay overlay and observes the cleaner's retry schedule",
         "cache kind: C16/ModelW.v (cache + LRU composed with this wheel model) is imported for `agrees`",
     ]
     assumptions = ["keys are compared with Go == on int64 / string (model: Z)",
@@ -167,6 +178,18 @@ class C12(Property):
             # seeds C12-1 / C12-2: re-slotted entry with circle / diff pending; relocation then move
             w(5, 10, [["set", 1, 5, 120], ["move", 1, 20]] + T * 13, "fake"),
             w(4, 10, [["set", 1, 5, 20], ["move", 1, 50]] + T * 2 + [["move", 1, 10]] + T * 6),
+            # seed C12-1 again: the re-slotting branch (steps < wait) on an entry with circles left
+            w(5, 10, [["set", 1, 5, 120], ["move", 1, 10]] + T * 13),
+            w(5, 10, [["set", 1, 5, 20], ["move", 1, 90]] + T * 1 + [["move", 1, 20]] + T * 12, "buf"),
+            # seed C12-2 again: after the relocation the record must know the new slot: a later Move by more than the wait
+            w(4, 10, [["set", 1, 5, 20], ["move", 1, 50]] + T * 2 + [["move", 1, 60]] + T * 8),
+            # seed C12-5: a dead entry of a key that has a live entry elsewhere is scanned; then Remove / Move / Set of the key
+            w(4, 10, [["set", 1, 5, 20], ["remove", 1], ["set", 1, 6, 30]] + T * 2 + [["remove", 1]] + T * 3),
+            w(5, 10, [["set", 1, 5, 40], ["move", 1, 10], ["set", 1, 6, 60]] + T * 4 + [["remove", 1]] + T * 3),
+            w(4, 10, [["set", 1, 5, 20], ["remove", 1], ["set", 1, 6, 30]] + T * 2 + [["set", 1, 7, 40]] + T * 5 + [["drain"]]),
+            # seed C12-6: SetTimer of a pending key to an earlier tick carries the NEW value
+            w(3, 10, [["set", 1, 5, 30], ["set", 1, 6, 10]] + T * 3),
+            w(10, 1000, T * 3 + [["set", 1, 5, 8000], ["set", 1, 6, 2000]] + T * 9, "fake"),
             # rejected calls, Stop, calls on a closed wheel, a second Stop
             w(3, 10, [["set", 1, 5, 30], ["set", None, 5, 30], ["set", 1, 6, 0], ["move", 1, -10], ["move", None, 30],
                       ["remove", None], ["tick"], ["stop"], ["tick"], ["set", 2, 1, 30], ["move", 1, 30], ["remove", 1],
@@ -182,6 +205,15 @@ class C12(Property):
                            ["release", 900], ["tick"]], "fake"), hold=[900]),
             dict(w(3, 10, [["set", 1, 900, 10], ["set", 2, 901, 10], ["set", 3, 900, 20], ["set", 4, 4, 20], ["set", 5, 5, 40]]
                    + T * 2 + [["release", 901]] + T * 2 + [["release", 900], ["drain"]]), hold=[900, 901]),
+        ]
+        # seed C12-7: two timers due at one tick, the first one's callback held; Set / Move of the second key in that window
+        cs += [
+            dict(w(3, 10, [["set", 1, 900, 10], ["set", 2, 7, 10], ["tick"], ["set", 2, 8, 30]] + T * 3 + [["release", 900], ["tick"], ["drain"]]),
+                 hold=[900]),
+            dict(w(3, 10, [["set", 1, 900, 10], ["set", 2, 7, 10], ["tick"], ["move", 2, 20]] + T * 2 + [["release", 900], ["tick"], ["drain"]]),
+                 hold=[900]),
+            dict(w(4, 10, [["set", 1, 900, 10], ["set", 2, 7, 10], ["tick"], ["set", 2, 8, 10], ["remove", 2], ["tick"], ["set", 2, 9, 10],
+                           ["tick"], ["release", 900], ["tick"]], "fake"), hold=[900]),
         ]
         # seed C12-8: one callback held open while more than numSlots further ticks have due timers (a wheel that
         # hands the batches to ONE executor over a channel of numSlots batches stops taking ticks and calls)
